@@ -112,33 +112,16 @@ func checkC04(c *Ctx, r *Report) {
 			// Authenticated tested true
 			r.Rule("accept-authenticated", "a reply's completion code is used only if the decoded session wrapper's Authenticated flag was tested true (the decoder verifies the signature only when the flag is set)", 2)
 			okAuth := false
-			for _, tk := range p.Ifs() {
-				ifi := tk.If
-				v := ifi.Cond
-				neg := false
-				for {
-					if u, ok := v.(*ssa.UnOp); ok && u.Op == token.NOT {
-						neg = !neg
-						v = u.X
-						continue
-					}
-					break
-				}
-				if decodedLoad(v, fSess+".Authenticated", idx, decodeAt) {
-					arm := tk.Arm
-					if neg {
-						arm = !arm
-					}
-					if arm {
-						okAuth = true
-					}
+			for _, bf := range p.boolFacts() {
+				if bf.True && decodedLoad(p, bf.V, fSess+".Authenticated", idx, decodeAt) {
+					okAuth = true
 				}
 			}
 			r.Check(okAuth, fname+"|Authenticated|path "+label, s.Send.Pos(), "flag tested true", "a reply with the authenticated flag cleared (no AuthCode, signature never verified) is accepted as the command's response")
 			r.Rule("accept-session-id", "a reply's completion code is used only if the decoded session ID was compared equal with the session's LocalID", 2)
 			okID, _ := passedEquality(p, idx, decodeAt, fSess+".ID", func(l ssa.Value) bool {
 				ld, ok := l.(*ssa.UnOp)
-				return ok && ld.Op == token.MUL && apOf(ld.X).SelString() == "LocalID"
+				return ok && ld.Op == token.MUL && p.AP(ld.X).SelString() == "LocalID"
 			})
 			r.Check(okID, fname+"|ID|path "+label, s.Send.Pos(), "session ID compared with LocalID", "a reply addressed to a different session ID is accepted as the command's response")
 		})
@@ -417,8 +400,16 @@ func checkC04(c *Ctx, r *Report) {
 			r.Bad(fname+"|decode call", s.Fn.Pos(), "the closure never runs the connection's decoder on the reply")
 		} else {
 			call := dc.(*ssa.Call)
-			ex, isEx := call.Call.Args[0].(*ssa.Extract)
-			r.Check(isEx && ex.Tuple == ssa.Value(s.Send) && ex.Index == 0, fname+"|decode(reply)", dc.Pos(), "the decoder runs on the bytes returned by Transport.Send", "the decoder is not run on the bytes returned by this attempt's Transport.Send")
+			isEx := false
+			os := viewOrigins(s.Fn, call.Call.Args[0])
+			for _, o := range os {
+				ex, ok := o.(*ssa.Extract)
+				isEx = ok && ex.Tuple == ssa.Value(s.Send) && ex.Index == 0
+				if !isEx {
+					break
+				}
+			}
+			r.Check(isEx && len(os) > 0, fname+"|decode(reply)", dc.Pos(), "the decoder runs on the bytes returned by Transport.Send", "the decoder is not run on the bytes returned by this attempt's Transport.Send")
 		}
 	}
 }
